@@ -153,6 +153,7 @@ func c02SeveralRounds(c *Ctx) {
 		}
 		defer w.Close()
 		base := fmt.Sprintf("%064x", seed*0x9E3779B97F4A7C15)
+		base = "c0de" + base[4:] // at least one letter: the upper-cased variant below must be another string
 		ids := []string{base, base + " ", strings.ToUpper(base), " " + base, base[:40]}
 		ths := []int{2, 3, n, 2, 3}
 		var ces []*Ceremony
